@@ -740,7 +740,7 @@ func (p *Parser) evaluateImports(ctx context) ([]Statement, error) {
 			} else if nextTokenType == lexer.CLOSING_ROUND_BRACKET {
 				p.eat()
 				break
-			} else if slices.Contains([]lexer.TokenType{lexer.IDENTIFIER, lexer.STRING_LITERAL}, nextTokenType) {
+			} else if slices.Contains([]lexer.TokenType{lexer.IDENTIFIER, lexer.STRING_LITERAL, lexer.NEWLINE}, nextTokenType) {
 				// Nothing to do, parse next import in the next cycle.
 			} else {
 				return nil, p.expectedError(`")"`, nextToken)
